@@ -62,7 +62,7 @@ Lemma last_rune_start_from_spec b0 prev total :
   forall trev i,
     Forall (fun b => rune_byte_count b = 0) trev ->
     last_rune_start_from (trev ++ b0 :: prev) (length trev + S i) total
-    = (i, Nat.eqb (i + N.to_nat (rune_byte_count b0)) total).
+    = Some (i, Nat.eqb (i + N.to_nat (rune_byte_count b0)) total).
 Proof.
   intros Hb0 trev. induction trev as [|x trev IH]; intros i F.
   - cbn [app length Nat.add last_rune_start_from].
@@ -76,7 +76,7 @@ Lemma index_of_last_rune_start_spec p b0 t :
   0 < rune_byte_count b0 ->
   Forall (fun b => rune_byte_count b = 0) t ->
   index_of_last_rune_start (p ++ b0 :: t)
-  = (length p, Nat.eqb (length p + N.to_nat (rune_byte_count b0)) (length (p ++ b0 :: t))).
+  = Some (length p, Nat.eqb (length p + N.to_nat (rune_byte_count b0)) (length (p ++ b0 :: t))).
 Proof.
   intros Hb0 F. unfold index_of_last_rune_start.
   destruct (p ++ b0 :: t) as [|y l] eqn:E.
@@ -98,7 +98,7 @@ Definition good_rem (rm : bytes) : Prop :=
 
 Lemma tail_split_app d nx rm : tail_split d = Some (nx, rm) -> nx ++ rm = d.
 Proof.
-  unfold tail_split. destruct (index_of_last_rune_start d) as [idx complete].
+  unfold tail_split. destruct (index_of_last_rune_start d) as [[idx complete]|]; [|discriminate].
   destruct complete.
   - intro H. injection H as <- <-. apply app_nil_r.
   - destruct (4 <? length (skipn idx d))%nat; [discriminate|].
@@ -330,6 +330,13 @@ Example stream_rejects_ex :
   stream_accepts [[128; 128; 128; 128; 128]] = false /\         (* the Go code panics *)
   stream_accepts [[65; 248]; [65]] = false /\
   stream_accepts [[300]] = false.
+Proof. vm_compute. repeat split. Qed.
+
+(* a non-empty piece without any rune start is rejected at once (the Go slice expression panics) *)
+Example stream_no_rune_start_ex :
+  stream_fold [] [] [[128]] = None /\
+  stream_fold [] [] [[240; 157; 132]; [158; 255]] = None /\
+  stream_accepts [[240; 157; 132]; [158; 255]; [65]] = false.
 Proof. vm_compute. repeat split. Qed.
 
 Example stream_split_invariant_ex :
